@@ -7,6 +7,13 @@ EXTRA = {  # other checks that also see a change
  "C01-m2": ["C02", "C03"], "C03-m2": ["C01"], "C07-m2": ["C15"], "C10-m2": ["C12"], "C12-m1": ["C10"], "C19-m1": ["C04"],
 }
 STRENGTHENED = {
+ "C06-m3": "missed by the version the change was written against: C06 only used populations of 0..9 members, the panic needs a tournament of >= 9 on >= 81 individuals; C06 now has a large-population phase (10..4099 members, tournament sizes around 8/16/32/64, sqrt(n), n/2, n-1, n, n+1)",
+ "C12-m3": "missed at first: C12 built its gene generators through into_gene_generator / into_gene_generator_with_close_probability only; it now drives all six public constructors (owning and borrowing, explicit and default close probability)",
+ "C13-m4": "missed at first: every combination was built completely before its first selection; C13 now also runs staged histories (select, extend with another member, select again) on DynWeighted lists and with_item_and_weight chains, each stage judged against the weights it has at that moment",
+ "C15-m3": "missed at first: result vectors had at most 8 entries; every 400th vector now has up to 100003 results with lengths around powers of two (chunked / parallel aggregation paths)",
+ "C16-m3": "missed at first: input names were five short identifiers; the shared generator now also declares hostile names (long names agreeing on their first 15/16/23/32/64 bytes, prefixes of each other, case / whitespace / Unicode-normalisation variants, the empty name), which C01, C02, C03 and C16 all use",
+ "C16-m4": "missed at first: the registry used one fixed small size per operation; sizes 0..2049 (word and block boundaries included) are now derived from the seed, and every call is repeated after a reversed call history",
+ "C17-m3": "not observable by calling (the flavour no longer compiles, and with it the harness): ./check C17 now first observes rustc's verdict on a generated probe crate with one function per (trait x pointer x auto-trait) flavour and reports a rejected flavour as C17/flavour-not-supported",
  "C03-m2": "missed at first: the capacity invariant read the maxima from the observed state, which the change itself had lifted; C03 now judges sizes against the configured maxima and flags any change of a maximum during evaluation",
  "C07-m2": "missed at first: C07 used only its own logging individual type; it now also runs Best / Worst / Tournament on EcIndividual populations with repeated genomes carrying different results",
  "C10-m2": "missed at first: independence was only checked between neighbours and lengths <= 64; C10 and C12 now check the joint frequency at every distance on lengths 70 and 130",
@@ -18,14 +25,15 @@ only = sys.argv[1:]
 os.makedirs("/verif/seeded", exist_ok=True)
 for wt in sorted(glob.glob("/tmp/wt-C*")):
     prop = os.path.basename(wt)[3:]
-    for m in ("m1", "m2"):
+    for m in sorted(os.listdir(os.path.join(wt, "MUTANTS"))) if os.path.isdir(os.path.join(wt, "MUTANTS")) else []:
         sid = f"{prop}-{m}"
-        if only and sid not in only: continue
+        if only and sid not in only and prop not in only: continue
         md = os.path.join(wt, "MUTANTS", m)
         if not os.path.exists(os.path.join(md, "patch.diff")): continue
         conf = subprocess.run(["python3", "/verif/tools/confirm_mutant.py", wt, m], capture_output=True, text=True).stdout.strip().splitlines()[-1]
         ok = conf.endswith("ALL-OK")
         props = [prop] + EXTRA.get(sid, [])
+        if os.environ.get("ALSO"): props += [x for x in os.environ["ALSO"].split(",") if x not in props]
         r = subprocess.run(["/verif/tools/try_mutant.sh", os.path.join(md, "patch.diff")] + props, capture_output=True, text=True).stdout
         caught = {}
         for line in r.splitlines():
